@@ -35,7 +35,7 @@ func genDispose(t *rapid.T) Round {
 	r.P["variant"] = rapid.IntRange(0, 3).Draw(t, "variant") // 3: dispose.ResourceManager.DisposeAll
 	r.P["handlers"] = rapid.IntRange(1, 4).Draw(t, "handlers")
 	r.P["errs"] = rapid.IntRange(0, 1).Draw(t, "errs")
-	r.P["slow"] = rapid.IntRange(0, 2).Draw(t, "slow")
+	r.P["slow"] = rapid.IntRange(0, 3).Draw(t, "slow") // 3: every handler takes ~30us (a final report, a flush)
 	if n := rapid.IntRange(0, 2).Draw(t, "adders"); n > 0 {
 		r.P["adders"] = n
 		r.Paths = append(r.Paths, "add-clean-handler")
@@ -155,10 +155,18 @@ func runDispose(r Round) *outcome {
 	for i := range pre {
 		pre[i] = &counter{}
 	}
+	finished := map[*counter]*counter{} // handler -> completions (a handler has "run" when it has returned)
+	for _, c := range pre {
+		finished[c] = &counter{}
+	}
 	slow := r.p("slow")
 	mk := func(c *counter, fails bool) func() error {
+		fin := finished[c]
 		return func() error {
 			c.hit()
+			if fin != nil {
+				defer fin.hit()
+			}
 			switch slow {
 			case 1:
 				runtime.Gosched()
@@ -167,6 +175,9 @@ func runDispose(r Round) *outcome {
 					_ = i
 				}
 				runtime.Gosched()
+			case 3:
+				for t := nowNS(); nowNS()-t < 30000; {
+				}
 			}
 			if fails {
 				return errors.New("handler failed")
@@ -224,10 +235,25 @@ func runDispose(r Round) *outcome {
 	for i := 0; i < r.Closers; i++ {
 		i := i
 		rc.spin(kindCloser, "Close", func() {
+			gotErr := false
 			if closeErr != nil && i%2 == 1 {
-				closeErr()
+				gotErr = closeErr() != nil
 			} else {
-				d.Close()
+				gotErr = d.Close().HasErrors()
+			}
+			// Close returned => released: whichever caller it is (the one that ran the cleanup or
+			// one that arrived while it was in progress), every registered cleanup action has
+			// completed and its errors are reported to this caller
+			for j, c := range pre {
+				if n := finished[c].get(); n == 0 {
+					rc.fail("C16/dispose/close-returned-before-cleanup-finished",
+						fmt.Sprintf("a Close call (closer %d of %d) returned while pre-registered handler %d had not finished (started %d times)", i, r.Closers, j, c.get()))
+					break
+				}
+			}
+			if want := r.p("errs") > 0; gotErr != want {
+				rc.fail("C16/dispose/close-returned-without-cleanup-errors",
+					fmt.Sprintf("a Close call (closer %d of %d) reported errors=%v, %d cleanup handlers failed", i, r.Closers, gotErr, r.p("errs")))
 			}
 			// at no point may a cleanup action have run more than once
 			for j, c := range pre {
